@@ -20,7 +20,7 @@ import (
 // inlineMaxPaths paths, nesting depth inlineMaxDepth. Beyond the bounds the call stays opaque,
 // exactly as before.
 const (
-	inlineMaxPaths = 8
+	inlineMaxPaths = 16
 	inlineMaxDepth = 2
 	inlineMaxStmts = 40
 	// private helpers (CallGraph.Owner == the analysed function)
@@ -303,12 +303,12 @@ func (f *Flow) inlineOf(e Event) (res *inlined) {
 		inlStack: append(append([]*Func{}, f.inlStack...), callee), self: f.self, inlMode: f.inlMode}
 	sub.prepare()
 	paths, ok := sub.Paths()
-	if (!ok || len(paths) > maxPaths) && sub.inlMode == 0 {
-		// too big with the private helpers of the analysed function spliced into it (a callback handed to
-		// this helper may call one): once more with small callees only
+	// too big with what is spliced into it (a callback handed to this helper may call private helpers of the
+	// analysed function, or mid-sized functions): once more with less and less inlining inside it
+	for mode := sub.inlMode + 1; (!ok || len(paths) > maxPaths) && mode <= 2; mode++ {
 		sub = &Flow{P: f.P, Pkg: f.Pkg, Info: f.Info, Node: body, Body: body, Name: callee.Key + "@inl" + suffix,
 			comm: map[ast.Node]bool{}, caseTag: map[ast.Expr]*ast.SwitchStmt{}, inl: map[*ast.CallExpr]*inlined{},
-			inlStack: append(append([]*Func{}, f.inlStack...), callee), self: f.self, inlMode: 1}
+			inlStack: append(append([]*Func{}, f.inlStack...), callee), self: f.self, inlMode: mode}
 		sub.prepare()
 		paths, ok = sub.Paths()
 	}
